@@ -13,7 +13,7 @@ From RT Require Import Model.StackTrace Model.StackProto Proofs.StackInvProofs P
 Import ListNotations.
 
 Theorem C06_crash_atomic : forall size_oracle attempts tabs scripts sched,
-  init_ok tabs -> Forall (fun s => forallb modelled s = true) scripts ->
+  init_ok tabs ->
   c06_ok (trace_of size_oracle attempts tabs scripts sched) = true.
 Proof. exact c06_all_traces. Qed.
 Print Assumptions C06_crash_atomic.
